@@ -726,7 +726,7 @@ func (e *Expr) Depth() int {
 // initial kinds (variables and method results: their own kind; everything else: the canonical
 // kind of the family).
 func (e *Expr) kindGuess() reflect.Kind {
-	if (e.Op == "var" || e.Op == "call") && e.GK != 0 {
+	if (e.Op == "var" || e.Op == "call" || e.Op == "member") && e.GK != 0 {
 		return reflect.Kind(e.GK)
 	}
 	switch e.Ty {
